@@ -124,3 +124,144 @@ def random_layout(rng, n_elements):
         "pretty": rng.random() < 0.5,
         "drop_empty_views": rng.random() < 0.5,
     }
+
+
+# ------------------------------------------------------------------------------------------------
+# JSON CAS 0.4.0
+# ------------------------------------------------------------------------------------------------
+import base64
+import math
+
+FLOAT_ARRAYS = ("uima.cas.FloatArray", "uima.cas.DoubleArray")
+
+
+def _ftok(x):
+    if math.isnan(x):
+        return "NaN"
+    if math.isinf(x):
+        return "Infinity" if x > 0 else "-Infinity"
+    return repr(float(x)).upper().replace("E+", "E")
+
+
+def _jv(v):
+    if isinstance(v, float):
+        return {"f": _ftok(v)}
+    return v
+
+
+def _jv_back(v):
+    if isinstance(v, dict) and "f" in v:
+        return float(v["f"])
+    return v
+
+
+def read_json(text):
+    """JSON CAS text -> abstract document"""
+    data = json.loads(text)
+    types = None
+    if "%TYPES" in data and data["%TYPES"] is not None:
+        types = []
+        for name, jt in data["%TYPES"].items():
+            feats = []
+            for k, jf in jt.items():
+                if k.startswith("%"):
+                    continue
+                feats.append({"name": k, "range": jf["%RANGE"], "descr": jf.get("%DESCRIPTION"),
+                              "multi": jf.get("%MULTIPLE_REFERENCES_ALLOWED"), "elem": jf.get("%ELEMENT_TYPE")})
+            types.append({"name": name, "super": jt["%SUPER_TYPE"], "descr": jt.get("%DESCRIPTION"), "feats": feats})
+    fss = []
+    raw = data.get("%FEATURE_STRUCTURES") or []
+    items = [(None, f) for f in raw] if isinstance(raw, list) else [(int(k), f) for k, f in raw.items()]
+    for key, f in items:
+        ty = f.get("%TYPE")
+        el = f.get("%ELEMENTS")
+        if el is None:
+            elements = None
+        elif ty == "uima.cas.ByteArray":
+            elements = {"k": "ints", "v": list(base64.b64decode(el))}
+        elif ty in FLOAT_ARRAYS:
+            elements = {"k": "flts", "v": [_jv(x) if not isinstance(x, int) or isinstance(x, bool) else {"f": _ftok(float(x))} for x in el]}
+        elif ty == "uima.cas.FSArray":
+            elements = {"k": "refs", "v": list(el)}
+        elif all(isinstance(x, bool) for x in el) and el:
+            elements = {"k": "bools", "v": list(el)}
+        elif all(isinstance(x, int) for x in el) and el:
+            elements = {"k": "ints", "v": list(el)}
+        else:
+            elements = {"k": "strs", "v": list(el)}
+        feats = [[k, _jv(v)] for k, v in f.items() if not k.startswith("%")]
+        fss.append({"id": f.get("%ID") if key is None else key, "ty": ty, "elements": elements, "feats": feats})
+    views = []
+    for name, jv in (data.get("%VIEWS") or {}).items():
+        views.append({"name": name, "sofa": jv.get("%SOFA"), "members": list(jv.get("%MEMBERS") or [])})
+    return {"types": types, "fss": fss, "views": views}
+
+
+def canon_jdoc(doc):
+    """member order inside JSON objects is not significant"""
+    d = json.loads(json.dumps(doc))
+    if d.get("types") is not None:
+        d["types"] = sorted(d["types"], key=lambda t: t["name"])
+        for t in d["types"]:
+            t["feats"] = sorted(t["feats"], key=lambda f: f["name"])
+    for f in d["fss"]:
+        f["feats"] = sorted(f["feats"], key=lambda kv: kv[0])
+    d["views"] = sorted(d["views"], key=lambda v: v["name"])
+    return d
+
+
+def write_json(doc, layout=None):
+    """abstract document -> JSON text under a layout record:
+       fs_order / type_order: permutations; dict_form: feature structures as an id-keyed object;
+       pretty, ensure_ascii"""
+    layout = layout or {}
+    out = {}
+    if doc.get("types") is not None:
+        types = list(doc["types"])
+        if layout.get("type_order") is not None:
+            types = [types[i] for i in layout["type_order"]]
+        td = {}
+        for t in types:
+            jt = {"%NAME": t["name"], "%SUPER_TYPE": t["super"]}
+            if t.get("descr"):
+                jt["%DESCRIPTION"] = t["descr"]
+            for f in t["feats"]:
+                jf = {"%NAME": f["name"], "%RANGE": f["range"]}
+                if f.get("descr"):
+                    jf["%DESCRIPTION"] = f["descr"]
+                if f.get("multi") is not None:
+                    jf["%MULTIPLE_REFERENCES_ALLOWED"] = f["multi"]
+                if f.get("elem") is not None:
+                    jf["%ELEMENT_TYPE"] = f["elem"]
+                jt[f["name"]] = jf
+            td[t["name"]] = jt
+        out["%TYPES"] = td
+    fss = list(doc["fss"])
+    if layout.get("fs_order") is not None:
+        fss = [fss[i] for i in layout["fs_order"]]
+    rendered = []
+    for f in fss:
+        jf = {}
+        if not layout.get("dict_form"):
+            jf["%ID"] = f["id"]
+        jf["%TYPE"] = f["ty"]
+        el = f.get("elements")
+        if el is not None:
+            if f["ty"] == "uima.cas.ByteArray":
+                jf["%ELEMENTS"] = base64.b64encode(bytes(el["v"])).decode("ascii")
+            else:
+                jf["%ELEMENTS"] = [_jv_back(x) for x in el["v"]]
+        for k, v in f["feats"]:
+            jf[k] = _jv_back(v)
+        rendered.append((f["id"], jf))
+    if layout.get("dict_form"):
+        out["%FEATURE_STRUCTURES"] = {str(i): jf for i, jf in rendered}
+    else:
+        out["%FEATURE_STRUCTURES"] = [jf for _i, jf in rendered]
+    views = list(doc["views"])
+    if layout.get("view_order") is not None:
+        views = [views[i] for i in layout["view_order"]]
+    out["%VIEWS"] = {v["name"]: {"%SOFA": v["sofa"], "%MEMBERS": v["members"]} for v in views}
+    if layout.get("views_first"):
+        out = {"%VIEWS": out["%VIEWS"], **{k: v for k, v in out.items() if k != "%VIEWS"}}
+    return json.dumps(out, indent=2 if layout.get("pretty") else None, ensure_ascii=bool(layout.get("ensure_ascii")))
